@@ -671,7 +671,8 @@ func redactString(s string, nonEncryptedValue string) string {
 	if shouldEncrypt && encryptionKey != nil {
 		encrypted, err := Encrypt([]byte(s), encryptionKey)
 		if err != nil {
-			return s // Fallback to original if encryption fails
+			// Never emit the original value: fall back to the placeholder if encryption fails
+			return nonEncryptedValue
 		}
 		return base64.StdEncoding.EncodeToString(encrypted)
 	}
